@@ -407,7 +407,9 @@ func TestC17(t *testing.T) {
 			dumpLoadContinuation(sim, p, tr.cs)
 		},
 		Replay: func(t *testing.T, r *core.Replay, st *core.Stats) {
-			sim := core.NewSim(t, c17Config(), r.Universe, st, nil)
+			cfg := c17Config()
+			cfg.Listener = r.Listener
+			sim := core.NewSim(t, cfg, r.Universe, st, nil)
 			for _, op := range r.Ops {
 				sim.Apply(op)
 				if sim.Done() {
